@@ -133,6 +133,7 @@ func init() {
 			redis       bool
 			advertise   []string // PKCE methods the identity provider's discovery document advertises (nil = both)
 			entra       bool     // provider variant: Microsoft Entra ID, multi-tenant with an allowed-tenants list
+			skipButton  bool     // skip-provider-button: unauthenticated page requests start a login implicitly
 		}
 		var cfgs []lcfg
 		for _, perReq := range []bool{false, true} {
@@ -148,10 +149,11 @@ func init() {
 			lcfg{pkce: "", advertise: []string{"S256"}})
 		// provider variant with its own ValidateSession in front of the generic one
 		cfgs = append(cfgs, lcfg{entra: true}, lcfg{entra: true, pkce: "S256", perReq: true})
+		cfgs = append(cfgs, lcfg{skipButton: true, pkce: "S256"}, lcfg{skipButton: true, pkce: "plain", perReq: true}, lcfg{skipButton: true})
 		u := defaultUser()
 		for _, lc := range cfgs {
 			cfg := proxyCfg{CSRFPerRequest: lc.perReq, EncodeState: lc.enc, PKCE: lc.pkce, SkipNonce: lc.skipNonce, Redis: lc.redis, InjectRequest: defaultInject(),
-				IdPAdvertisedPKCE: lc.advertise}
+				IdPAdvertisedPKCE: lc.advertise, SkipProviderButton: lc.skipButton}
 			if lc.entra {
 				cfg.ProviderType, cfg.EntraAllowedTenants, cfg.SkipIssuerCheck = "entra-id", []string{"tenant-1", "tenant-2"}, true
 			}
@@ -414,6 +416,56 @@ func init() {
 						map[string]interface{}{"status": v.Status, "cfg": fmt.Sprintf("%+v", cfg), "idp_pkce_failures": fmt.Sprint(e.idp.pkceFailures)})
 				}
 			}
+			// response_mode=form_post: the identity provider returns state and code in a POST body; the login's own state
+			// and CSRF cookie must complete exactly as with a GET callback
+			{
+				pb := newBrowser()
+				if sl := e.startOne(pb, "P", "/posted"); sl != nil {
+					if target, g := e.callbackFor(sl, u, nil); g != nil {
+						cu, _ := url.Parse(target)
+						v := e.do(reqSpec{Method: "POST", Target: cu.Path, Body: cu.RawQuery, Cookie: pb.cookieHeader(), Header: http.Header{"Content-Type": {"application/x-www-form-urlencoded"}}})
+						c.casen(fmt.Sprintf("c03|form-post|%+v", lc), fmt.Sprint(v.Status))
+						c.count("c03:form-post")
+						if !hasSessionSet(v, e.opts.Cookie.Name) {
+							c.violation("C03", "a callback delivered as a form POST (response_mode=form_post) with the login's own unmodified state and CSRF cookie did not complete",
+								map[string]interface{}{"status": v.Status, "cfg": fmt.Sprintf("%+v", cfg)})
+						}
+					}
+				}
+			}
+			// every entry into a login is PKCE protected: also the implicit start of an unauthenticated page request (skip-provider-button)
+			if lc.skipButton {
+				for _, target := range []string{"/app/page?x=1", e.opts.ProxyPrefix + "/sign_in?rd=%2Fy", e.opts.ProxyPrefix + "/start?rd=%2Fz"} {
+					ib := newBrowser()
+					r := e.do(reqSpec{Target: target})
+					if r.raw != nil {
+						ib.apply(r.raw)
+					}
+					c.count("c05:implicit-start")
+					if r.Status != 302 || !strings.HasPrefix(r.Location, e.idp.url()) {
+						continue
+					}
+					lu, _ := url.Parse(r.Location)
+					cc, ccm := lu.Query().Get("code_challenge"), lu.Query().Get("code_challenge_method")
+					var pl *csrfPlain
+					for n, v := range ib.jar {
+						if strings.HasSuffix(n, "_csrf") {
+							pl, _ = indepDecodeCSRF(e.opts.Cookie.Secret, v)
+						}
+					}
+					c.casen(fmt.Sprintf("c05|implicit|%+v|%s", lc, target), ccm)
+					if lc.pkce != "" {
+						want := ""
+						if pl != nil {
+							want, _ = challengeOf(lc.pkce, pl.Verifier)
+						}
+						if ccm != lc.pkce || cc == "" || cc != want {
+							c.violation("C05", "a login entered through "+target+" (no explicit /oauth2/start) carries no challenge derived from a fresh verifier although a code-challenge method is configured",
+								map[string]interface{}{"entry": target, "location": r.Location, "cfg": fmt.Sprintf("%+v", cfg)})
+						}
+					}
+				}
+			}
 			// parallel tabs: ONE browser starts three logins, then completes them one after the other, honouring every
 			// Set-Cookie (including deletions) of each completion.  With per-request CSRF cookies every one of them
 			// carries its own unmodified state and cookie, so every one must complete, in any order.
@@ -483,7 +535,7 @@ func init() {
 				}
 			}
 			// C05: identity-provider nonce behaviours on a fresh login each
-			for _, mode := range []string{"echo", "other", "empty", "absent", "raw", "replay"} {
+			for _, mode := range []string{"echo", "other", "empty", "absent", "raw", "replay", "replay-token"} {
 				b := newBrowser()
 				sl := e.startOne(b, "N", "/n")
 				if sl == nil {
@@ -497,6 +549,10 @@ func init() {
 					if q, err := url.Parse(lb.location); err == nil {
 						e.idp.nonceMode = "other:" + q.Query().Get("nonce")
 					}
+				case "replay-token":
+					// the identity provider (or an attacker in its place) answers with the VERY id_token an earlier, completed login
+					// of this proxy received: validly signed, unexpired, already seen — but bound to the earlier login's nonce
+					e.idp.forceIDToken = e.idp.lastIDToken
 				case "raw":
 					e.idp.nonceMode = "raw"
 					raw := sl.plain
@@ -516,7 +572,7 @@ func init() {
 				}
 				v, real := e.serveCase(reqSpec{Target: target, Cookie: b.cookieHeader()}, nil, "nonce:"+mode)
 				e.idp.mu.Lock()
-				e.idp.nonceMode = ""
+				e.idp.nonceMode, e.idp.forceIDToken = "", ""
 				e.idp.mu.Unlock()
 				if v == nil {
 					continue
@@ -577,7 +633,7 @@ func init() {
 			e.close()
 		}
 		_ = time.Now
-		c.close([]string{"c03:established", "c03:rejected", "c03:state-variant", "nonce:echo", "nonce:raw", "pkce:S256", "kind:redirect", "kind:errorPage", "c05:rand-fault", "c05:fresh-check", "c08:no-email", "c03:sweep-state", "c03:sweep-cookie", "c03:tabs", "provider:entra-id", "c03:bare-start"})
+		c.close([]string{"c03:established", "c03:rejected", "c03:state-variant", "nonce:echo", "nonce:raw", "pkce:S256", "kind:redirect", "kind:errorPage", "c05:rand-fault", "c05:fresh-check", "c08:no-email", "c03:sweep-state", "c03:sweep-cookie", "c03:tabs", "provider:entra-id", "c03:bare-start", "c03:form-post", "c05:implicit-start", "nonce:replay-token"})
 	})
 }
 
